@@ -7,7 +7,7 @@ CFG = {
     "theory_files": ["theories/Base/Bytes.v", "theories/Base/BytesProofs.v", "theories/Formats/Gltf.v",
                      "theories/Formats/GltfProofs.v", "theories/Formats/GltfExtProofs.v",
                      "theories/Formats/GltfDedupProofs.v", "theories/Formats/GltfNodeProofs.v",
-                     "theories/Formats/GltfTexProofs.v", "theories/Formats/GltfFinalProofs.v",
+                     "theories/Formats/GltfTexProofs.v", "theories/Formats/GltfFinalProofs.v", "theories/Formats/GltfGeomProofs.v",
                      "theories/Formats/GltfGlbProofs.v"],
     "level_text": "Coq theorems about a state-machine model of the glTF writer (WriteVector2/3/4, WriteIndices, AddTexture, "
                   "AddMaterial, AddMesh, AddScene, AddLight, ToGLTF, WriteGLB): for every scene the buffer views tile the "
@@ -26,7 +26,7 @@ CFG = {
     "rule": "18 fixed scenes (empty, one triangle, unaligned second mesh, negative-only non-float32 coordinates, shared mesh "
             "pointer x material, materials equal by value / differing only in normal or occlusion texture, instances + TRS + "
             "lights, JOINTS_0 bytes, refused alphaCutoff, 65535/65536/65537 vertices, NaN and -0, texture transform, LOD placements[:2] / placements / placements[2:] as views of one instance array, Position data of three meshes as prefix / window of one array with a shared index array and the same model value listed twice), 4 (24) "
-            "big scenes with 65534..70001 vertices run-length encoded, and random scenes: 1-3 meshes (point/triangle, 0-12 "
+            "big scenes with 65534..70001 vertices run-length encoded, and the corpus scene of fix 31c30a5 (materials differing only in a texture's extension list), random scenes: 1-3 meshes (point/triangle, 0-12 "
             "vertices, attribute mix of Position/Normal/TexCoord/Color/Joint/Weight/custom, value modes mixed / negative only / "
             "tenths / constant / NaN,-0), 0-4 textures over 4 URIs and 0-2 samplers, 0-3 material extensions, 0-4 materials "
             "half of them by-value copies with at most one field changed, 1-6 models with repeated mesh pointers, optional "
